@@ -111,9 +111,12 @@ theorem SameFS.trans {a b c : World} (h1 : SameFS a b) (h2 : SameFS b c) : SameF
 theorem account_sameFS (sig : Sig) (mu : Bool) (w : World) : SameFS w (account sig mu w).1 := by
   unfold account; exact ⟨rfl, rfl, rfl⟩
 
+theorem crashed_faults {w : World} (h : crashed w = true) : w.faults ≠ [] := by
+  intro e; unfold crashed at h; rw [e] at h; simp at h
+
 theorem account_nofault (sig : Sig) (mu : Bool) (w : World) (h : w.faults = []) :
     (account sig mu w).2 = false := by
-  unfold account; simp [h]
+  unfold account crashed; simp [h]
 
 /-- a path-taking primitive: either the fault plan refuses it (nothing happens), or it runs on an
 unchanged disk -/
@@ -131,7 +134,10 @@ theorem Sat.primCall {cfg : Cfg} {side : Side} {c : Call} {w : World} {Q : World
     cases hc : (cfg.side side).call w.fs c with
     | mk m' r => rw [hc] at this; exact this
   split
-  · exact hexec w (SameFS.refl w)
+  · split
+    · rename_i hcr
+      exact hf (crashed_faults hcr) w (SameFS.refl w)
+    · exact hexec w (SameFS.refl w)
   · have hs := account_sameFS ⟨side, callMethod c, callArgs c⟩ (callMutating c) w
     cases hacc : account ⟨side, callMethod c, callArgs c⟩ (callMutating c) w with
     | mk w1 faulted =>
